@@ -52,6 +52,18 @@ def base_streams():
           _m(T + 400, True, 'wl_pointer', 4, 'button', [['int', 8], ['int', 100], ['int', 272], ['int', 1]], conn='9'),
           _m(T + 500, True, 'wl_pointer', 4, 'motion', [['int', 101], ['fixed', 256], ['fixed', -384]], conn='9')]
     streams['s4_cur_server'] = [wlprint.render(m, 'cur') for m in s4]
+    s5 = [_m(T, True, 'wl_display', 1, 'get_registry', [['new', 'wl_registry', 2]], conn='261'),
+          _m(T + 100, True, 'wl_registry', 2, 'bind', [['int', 1], ['str', 'xdg_wm_base'], ['int', 2], ['new', None, 3]], conn='261'),
+          _m(T + 200, True, 'xdg_wm_base', 3, 'get_xdg_surface', [['new', 'xdg_surface', 4], ['nil']], conn='261'),
+          _m(T + 300, True, 'xdg_surface', 4, 'get_toplevel', [['new', 'xdg_toplevel', 5]], conn='261'),
+          _m(T + 400, True, 'xdg_toplevel', 5, 'set_title', [['str', '']], conn='261'),
+          _m(T + 500, True, 'xdg_toplevel', 5, 'set_app_id', [['str', 'org.example.']], conn='261'),
+          _m(T + 600, True, 'xdg_toplevel', 5, 'set_app_id', [['str', '']], conn='261'),
+          _m(T + 700, True, 'xdg_toplevel', 5, 'set_title', [['str', 'a title']], conn='261'),
+          _m(T + 800, False, 'xdg_toplevel', 5, 'close', [], conn='261')]
+    for m in s5:
+        m['queue'] = 'Default Queue'
+    streams['s5_cur_queue_and_conn_empty_titles'] = [wlprint.render(m, 'cur') for m in s5]
     return streams
 
 
@@ -173,6 +185,7 @@ def eval_chatter(case):
                         V.append(Violation('conservation.passthrough', case, {'line_index': n, 'line': l, 'observed': e}))
         if tail is None or [kind_of(i) for i in tail].count('notice') != len(tail):
             V.append(Violation('conservation.tail', case, {'observed': tail}))
+        logs = [l for l in logs if 'Could not set connection name' not in l[1]]     # naming a connection is best effort
         if logs:
             V.append(Violation('log.noise', case, {'log': logs}))
     except Exception:
